@@ -100,7 +100,7 @@ Fixpoint subterms (t : ty) : list ty :=
        | TRec fs | TVariant fs => flat_map (fun f => subterms (snd f)) fs
        | TFunc a r _ => tuple a :: tuple r :: flat_map subterms a ++ flat_map subterms r
        | TServ ms => flat_map (fun f => subterms (snd f)) ms
-       | TClass a x => flat_map subterms a ++ subterms x
+       | TClass a x => tuple a :: flat_map subterms a ++ subterms x
        | _ => []
        end.
 Definition nodes (E : env) (ts : list ty) : list ty :=
